@@ -356,7 +356,10 @@ func Main(t *testing.T, e *Engine) {
 			}
 			out.Samples = append(out.Samples, append([]string{fmt.Sprintf("seed %d", seed)}, smp...))
 		}
-		if res.viol != nil && !classes[res.viol.Class()+"|"+res.viol.Sig] {
+		if res.viol != nil && digestMode {
+			// determinism self-test: the violation is part of the digest, no shrinking
+			digest = mix(digest, res.viol.Class()+"|"+res.viol.Sig)
+		} else if res.viol != nil && !classes[res.viol.Class()+"|"+res.viol.Sig] {
 			classes[res.viol.Class()+"|"+res.viol.Sig] = true
 			path := reportViolation(t, e, seed, prop, tier, res, known)
 			out.Violations = append(out.Violations, path)
